@@ -9,6 +9,7 @@ WT=/tmp/wt-$ID
 DST=/verif/seeded/$ID
 if [ "${ROUND:-1}" = "2" ]; then WT=/tmp/w2-$ID; DST=/verif/seeded/$ID-r2; fi
 if [ "${ROUND:-1}" = "3" ]; then WT=/tmp/w3-$ID; DST=/verif/seeded/$ID-r3; fi
+if [ "${ROUND:-1}" = "4" ]; then WT=/tmp/w4-$ID; DST=/verif/seeded/$ID-r4; fi
 SRC=$WT/_seed
 export GOFLAGS=-mod=mod GOPROXY=off GOSUMDB=off GOTOOLCHAIN=local
 mkdir -p "$DST"
@@ -27,13 +28,13 @@ PKG="./$(dirname "$REL")/"
 RUNPAT=$(grep -o 'func Test[A-Za-z0-9_]*' "$DEMO" | sed 's/func //' | paste -sd'|')
 echo "demo: $REL pkg=$PKG tests=$RUNPAT"
 go test -vet=off -count=1 -run "$RUNPAT" "$PKG" >/tmp/vs_without.log 2>&1; WITHOUT=$?
-if [ "${ROUND:-1}" = "3" ] && [ $WITHOUT = 0 ]; then # race demonstrations: must pass every time without the change
+if [ "${ROUND:-1}" -ge 3 ] && [ $WITHOUT = 0 ]; then # race demonstrations: must pass every time without the change
   for k in 2 3; do go test -vet=off -count=1 -run "$RUNPAT" "$PKG" >/tmp/vs_without.log 2>&1 || WITHOUT=$?; done
 fi
 git apply --whitespace=nowarn "$DST/patch.diff" || { echo "PATCH DOES NOT APPLY to current HEAD"; exit 3; }
 go build ./... || { echo "DOES NOT BUILD"; exit 3; }
 go test -vet=off -count=1 -run "$RUNPAT" "$PKG" >/tmp/vs_with.log 2>&1; WITH=$?
-if [ "${ROUND:-1}" = "3" ] && [ $WITH = 0 ]; then # race demonstrations may need more than one run to fail
+if [ "${ROUND:-1}" -ge 3 ] && [ $WITH = 0 ]; then # race demonstrations may need more than one run to fail
   for k in 2 3; do go test -vet=off -count=1 -run "$RUNPAT" "$PKG" >/tmp/vs_with.log 2>&1 || { WITH=$?; break; }; done
 fi
 mv "$W/$REL" /tmp/vs_demo_hold.go
